@@ -44,13 +44,24 @@ def renameOf (r : Renames) (original crate : Str) : Option Str :=
 
 def hasRename (r : Renames) (original : Str) : Bool := r.any (·.1 == original)
 
+/-- `Iterator::min_by_key` on (key, value) pairs whose key is a `String` (compared by `Str.lt` =
+Rust's `String: Ord`): the *first* entry, in the order of the list, among those with the smallest
+key (`reduce` keeps the current minimum unless the next key is strictly smaller) -/
+def minByKey {α} : List (Str × α) → Option (Str × α)
+  | [] => none
+  | x :: xs => some (xs.foldl (fun m y => if Str.lt y.1 m.1 then y else m) x)
+
 /-- `resolve_renamed`.  `imports` is the `HashSet` in *some* iteration order (a parameter of the
-model: `find_map` returns the first import, in that order, whose crate renames the type). -/
+model).  Among the imports of `id` whose crate renames the type, the one with the smallest crate
+name decides (`filter_map(..).min_by_key(|(base_crate, _)| *base_crate)`, since the `fix:` commit
+"resolve a type name imported from several crates the same way in every run"; it was `find_map`,
+the first such import in iteration order). -/
 def resolveRenamed (crate : Str) (r : Renames) (imports : List ImportedType) (id : Str) : Option Str :=
   if !hasRename r id then none
   else
-    match (imports.filter (·.typeName == id)).findSome? fun i => renameOf r id i.baseCrate with
-    | some n => some n
+    match minByKey ((imports.filter (·.typeName == id)).filterMap fun i =>
+        (renameOf r id i.baseCrate).map fun n => (i.baseCrate, n)) with
+    | some (_, n) => some n
     | none => renameOf r id crate
 
 mutual
@@ -131,8 +142,9 @@ def scopedEnsure (m : ScopedCrateTypes) (crate : Str) : ScopedCrateTypes :=
     else (k, v) :: scopedEnsure rest crate
 
 /-- `used_imports`.  `data.import_types` and `all_types` are hash containers: `imports` is the set
-in some iteration order and `firstOther name` is "the first crate ≠ current whose type set contains
-`name`" in the map's iteration order (only consulted by the re-export fallback). -/
+in some iteration order and `firstOther name` is "the crate ≠ current with the smallest name whose
+type set contains `name`" (only consulted by the re-export fallback; `Generate.firstOther` computes
+it from the map in some iteration order). -/
 def usedImports (d : ParsedData) (all : List (Str × List Str)) (imports : List ImportedType)
     (firstOther : Str → Option Str) : ScopedCrateTypes :=
   let fallback (m : ScopedCrateTypes) (name : Str) : ScopedCrateTypes :=
